@@ -237,4 +237,18 @@ CHECKS["C12"] = dict(
              "covers the rest provided the library stays free of synchronisation (reported as reduction_exact).",
 )
 
+CHECKS["C16"] = dict(
+        src="checks/c16.cpp", cfg="rel", link="static", engine="A/B hybrid: BFS over the real API with an exact interpreter",
+        category="model_checking", design_ref="DESIGN.md section 4, C16",
+        technique="breadth-first explicit-state search over all enabled API call sequences up to a depth bound, deduplicated on the reference model's state; every transition replayed on the real library and compared with an exact __int128 interpreter",
+        text="A pool of typed slots (three int64 vectors, two big vectors, two DFT vectors, a prepared scalar and a 2x2 prepared matrix) is driven by "
+             "about 30 op instances of the public API (add, sub, negate, copy, rotate, automorphism, normalize, dft, svp_prepare/apply, "
+             "vmp_prepare/apply/apply_to_dft, idft, idft_tmp_a, the big-coefficient forms, big and sub-range normalisation, small product). The "
+             "reference model is an exact interpreter over Z[X]/(X^N+1); an op is enabled only while every intermediate stays inside its "
+             "representation's precision budget. The model state graph is enumerated breadth first to depth 4 (quick) / 5-6 (thorough) for N in "
+             "{4,8} (both VMP layouts; 16 and 64 thorough) and both module types; every transition is replayed on fresh real objects and every "
+             "integer slot, and every DFT slot read out through idft, must equal the interpreter bit for bit.",
+        note="Depth-bounded; op instances use fixed slot assignments (not all argument permutations); initial vectors are fixed small polynomials.",
+)
+
 NOT_YET = {}
